@@ -97,6 +97,7 @@ let monitors : ((string * string) * (val0 -> val0 -> val0)) list = [
   (("C12", "hub"), mon_C12);
   (("C13", "hub"), mon_C13);
   (("C11", "hub"), mon_C11);
+  (("C19", "hub"), mon_C19);
 ]
 
 let first_diff (a : val0) (b : val0) : int =
